@@ -23,10 +23,19 @@ IR_RUNS = {
                       ("MC", "naming_edif", 2)],
             "thorough": [("MC", "conn", 3), ("MC", "mirror", 2), ("MC", "mirror_add", 3), ("MC", "body", 3), ("MC", "contain", 4),
                          ("MC", "naming", 3), ("MC", "naming_edif", 3), ("MC", "naming_mix", 3)]},
+    "C19": {"quick": [("MC", "conn", 2), ("MC", "mirror", 1), ("MC", "mirror_add", 2), ("MC", "contain", 2),
+                      ("MC", "naming", 1)],
+            "thorough": [("MC", "conn", 3), ("MC", "mirror", 2), ("MC", "mirror_add", 3), ("MC", "contain", 3),
+                         ("MC", "body", 3), ("MC", "naming", 2), ("MC", "naming_edif", 2)]},
     "C10": {"quick": [("MC", "naming", 2), ("MC", "naming_edif", 2), ("MC", "naming_mix", 2)],
             "thorough": [("MC", "naming", 3), ("MC", "naming_edif", 3), ("MC", "naming_mix", 3)]},
 }
+IR_LISTENERS = {"C19": "A"}
 IR_RULE = {
+    "C19": "every (reachable model state, candidate call) pair executed with a MirrorListener registered (a "
+           "CallbackListener that only replays announcements); every 4th state additionally under the listener "
+           "configurations none / mirror+passive / passive+mirror; distinct_nontrivial counts distinct (pre-state, "
+           "call) pairs that produced at least one announcement or were refused",
     "C10": "every (reachable model state of the naming scopes, candidate call) pair, under the DEFAULT, the EDIF and a "
            "mixed policy configuration; after every call every naming scope is asked for every alphabet value under "
            "both keys; distinct_nontrivial counts distinct (pre-state, call) pairs",
@@ -120,10 +129,11 @@ def ir_history(pid, tier, seed, replay=None, runs=None, strict=True):
                 jobs.append((module, scope, depth, gen, init, groups))
         for module, scope, depth, gen, init, groups in jobs:
             d = os.path.join(out, scope)
-            shards, stats = irflow.replay(init, groups, d, lookup=(gen or {}).get("lookup", rp.get("lookup", []) if replay else []))
+            shards, stats = irflow.replay(init, groups, d, lookup=(gen or {}).get("lookup", rp.get("lookup", []) if replay else []),
+                                          listeners=IR_LISTENERS.get(pid, ""))
             tot = {k: sum(s[k] for s in stats) for k in
                    ("groups", "calls", "ok", "refused", "changed_refused", "unbuildable", "records",
-                    "nontrivial_refused")}
+                    "nontrivial_refused", "announcements", "transparency_compared")}
             for s in stats:
                 res.machinery.extend(s["harness_errors"][:3])
             val = irflow.validate(shards, strict=strict,
@@ -146,7 +156,8 @@ def ir_history(pid, tier, seed, replay=None, runs=None, strict=True):
                         "replay": {"module": module, "scope": scope, "init": init, "lookup": (gen or {}).get("lookup", []), "hist": header["h"],
                                    "call": rec.get("call"), "observed_out": rec.get("out"),
                                    "exception": rec.get("exc"), "pre": header["state"],
-                                   "post": rec.get("state", "same as pre")}})
+                                   "post": rec.get("state", "same as pre"),
+                                   "announcements": rec.get("ann"), "mirror": rec.get("mirror")}})
                 for k, what in v["drifts"]:
                     nd += 1
                     if len(res.drift) < 10:
@@ -181,4 +192,4 @@ def ir_history(pid, tier, seed, replay=None, runs=None, strict=True):
     return res
 
 
-HANDLERS = {"C01": ir_history, "C02": ir_history, "C14": ir_history, "C10": ir_history}
+HANDLERS = {"C01": ir_history, "C02": ir_history, "C14": ir_history, "C10": ir_history, "C19": ir_history}
